@@ -12,6 +12,7 @@
   correspondence sweep (harness/src/bin/c08.rs) exhibits those.
 -/
 import YashModel.Fork.RedirLemmas
+import YashModel.Fork.SigLemmas
 import YashModel.Fork.Fields
 import YashModel.Fork.Lemmas
 import YashModel.Fork.SharedLemmas
@@ -1095,6 +1096,113 @@ theorem redirection_engine_as_modelled :
     ∧ Generated.ForkSystem.saveEbadfIsNone = true
     ∧ Generated.ForkSystem.overwriteOrder = ["dup2", "close_spec", "close_target"]
     ∧ Generated.ForkSystem.preserveClosesSave = true := by decide
+
+
+/-- ★★ `shared_table_is_spec` as an equality of LISTS (was open: "stated entry-wise; the list equality of the sorted table
+    with `specTable` is what the per-case comparison checks, not a theorem"): after ANY schedule of calls and forks the
+    whole process table of the model of the code — a `BTreeMap`, i.e. sorted by pid, which `ProcTable.put` keeps —
+    IS the table the Spec builds process by process, hence prints the same text in the `X:` observation.  Holding for
+    every schedule it holds for every prefix, i.e. for every intermediate table the observation shows. -/
+theorem shared_table_eq_spec_table (sched : List (Nat × XOp)) :
+    (initialSys.run implCopied sched).processes = specTable specCopied sched.reverse
+    ∧ showTable (initialSys.run implCopied sched) = showTable { processes := specTable specCopied sched.reverse } := by
+  have m := matches_run implCopied sched
+  have hs : (initialSys.run implCopied sched).processes.Sorted :=
+    run_sorted implCopied sched initialSys (by simp [initialSys, ProcTable.Sorted])
+  have e : specTable implCopied sched.reverse = specTable specCopied sched.reverse := by
+    unfold specTable
+    simp only [specProc_impl_eq_spec]
+  have h1 := (m.table_eq hs).trans e
+  exact ⟨h1, by unfold showTable; rw [h1]⟩
+
+/-- non-vacuity: a schedule with a fork, calls of both processes and a grandchild; the table has three entries -/
+example :
+    ((initialSys.run implCopied [(2, .fork), (3, .call (.umask "077")), (3, .fork), (2, .call (.close 1))]).processes.map
+        (fun e => (e.1, e.2.umask, e.2.fds.length)))
+      = [(2, "644", 2), (3, "077", 3), (4, "077", 3)] := by decide
+
+
+/-- POSIX `open` / `dup` / `fcntl(F_DUPFD)`: "the lowest numbered available file descriptor (greater than or equal to
+    the argument)".  `min_unused_fd` as transcribed (`minUnusedFd`, a bounded search with a fall-back value) meets that
+    declaratively: the result is not open, is at least `min`, and every descriptor between `min` and the result is open
+    (the fall-back is never taken: pigeonhole). -/
+theorem lowest_unused_descriptor (l : List (Nat × FdEntry)) (min : Nat) :
+    fdGet l (minUnusedFd l min) = none ∧ min ≤ minUnusedFd l min
+    ∧ ∀ m, min ≤ m → m < minUnusedFd l min → (fdGet l m).isSome = true :=
+  ⟨(minUnusedFd_free l min).1, (minUnusedFd_free l min).2, fun m h1 h2 => minUnusedFd_least l min m h1 h2⟩
+
+/-- … and `Dup::dup` answers exactly that descriptor: when `dup(src, min, flags)` answers `fd k`, `k` is the lowest
+    unused descriptor ≥ `min`, it is below the soft limit, it now designates `src`'s open file with the requested
+    CLOEXEC flag, and no other descriptor changed. -/
+theorem dup_answers_lowest (p : Proc) (src min k : Nat) (x : Bool)
+    (h : ((Call.dup src min x).runT p).1 = .fd k) :
+    k = minUnusedFd p.fds min ∧ fdAllowed p k = true
+    ∧ ∀ m, fdGet ((Call.dup src min x).runT p).2.fds m
+        = if m = k then (fdGet p.fds src).map (fun e => { e with cloexec := x }) else fdGet p.fds m := by
+  cases hs : fdGet p.fds src with
+  | none => rw [dup_closed p src min x hs] at h; cases h
+  | some e =>
+    by_cases ha : fdAllowed p (minUnusedFd p.fds min) = true
+    · rw [dup_ok p src min x e hs ha] at h ⊢
+      cases h
+      exact ⟨rfl, ha, fun m => by simp only [fdGet_fdPut, Option.map_some]⟩
+    · rw [dup_limit p src min x e hs ha] at h; cases h
+
+/-- non-vacuity: descriptors 0–2 and 10 open, `dup(1, 10, CLOEXEC)` answers 11 -/
+example :
+    ((Call.dup 1 10 true).runT { baseEnv.system with fds := fdPut baseEnv.system.fds 10 { label := "tty", cloexec := true } }).1
+      = .fd 11 := by decide
+
+
+/-! ## Part 7 — the signal state: every write of the Trap model (C11) is a `sigaction` / `sigmask` call of the process itself
+
+`trap`, and the trap reset of the child prologue (`TrapSet::enter_subshell`), change the process through C11's model,
+whose one primitive is `Sys.setDisposition` (= `Concurrent::set_disposition`: block, `sigaction`, unblock).  `SysReach s s'`
+(Fork/SigLemmas.lean) says: some list of `Call.sigaction` / `Call.sigmask` — the calls of Part 3 — takes any process whose
+`dispositions` / `blocked_signals` are `s`'s to one whose are `s'`'s and changes nothing else of it (`Sys.selectMask` is
+`Concurrent`'s shell-side select mask, not part of `Process`, hence "up to" it). -/
+
+/-- ★ The `trap` built-in (`TrapSet::set_action`, any condition, any action, error paths included) changes the shell's
+    process by `sigaction` / `sigmask` calls of that process only, and nothing but its signal state. -/
+theorem trap_builtin_is_own_calls (sh : Shell) (c : Nat) (a : TrapAct) :
+    SysReach sh.env.system.sys (applyOpCore sh (.trap c a)).env.system.sys
+    ∧ sh.env.system.SameButSys (applyOpCore sh (.trap c a)).env.system := by
+  refine ⟨?_, rfl, rfl, rfl, rfl, rfl, rfl⟩
+  exact setAction_reach { sys := sh.env.system.sys, traps := sh.env.traps } c _ 0 _
+
+/-- ★ The child prologue of `Config::start` (push the frame, disown, `enter_subshell` with any flags) changes the
+    child's process by `sigaction` / `sigmask` calls of the child only, and nothing but its signal state. -/
+theorem subshell_entry_is_own_calls (ii ks : Bool) (env : Env) :
+    SysReach env.system.sys (subshellEntry ii ks env).system.sys
+    ∧ env.system.SameButSys (subshellEntry ii ks env).system := by
+  refine ⟨?_, rfl, rfl, rfl, rfl, rfl, rfl⟩
+  exact enterSubshell_reach { sys := env.system.sys, traps := env.traps } ii ks
+
+/-- ★★ … on the SHARED table: the trap reset of a subshell's entry, performed through the child's handle (its
+    `Env.system` being the entry of `child`, i.e. AFTER the fork), leaves in the child's entry exactly the
+    dispositions and the mask the shell-level model computes and touches no other entry — the starter keeps its
+    handlers.  (Running the same prologue through the PARENT's handle, the round-1 seeded mistake, would by the same
+    theorem change the parent's entry: the statement pins the side of the fork.) -/
+theorem entry_reset_on_shared_table (copied : List (String × String)) (s : SysState) (child : Nat) (ii ks : Bool)
+    (env : Env) (hs : s.processes.get child = some env.system) :
+    ∃ cs : List Call,
+      (∃ q', (s.run copied (cs.map fun c => (child, .call c))).processes.get child = some q'
+        ∧ SysEq q'.sys (subshellEntry ii ks env).system.sys ∧ env.system.SameButSys q')
+      ∧ ∀ q, q ≠ child → (s.run copied (cs.map fun c => (child, .call c))).processes.get q = s.processes.get q := by
+  obtain ⟨cs, _, r⟩ := (subshell_entry_is_own_calls ii ks env).1
+  obtain ⟨r1, r2⟩ := own_calls_on_table copied child cs s env.system hs
+  obtain ⟨e, f⟩ := r env.system ⟨rfl, rfl⟩
+  exact ⟨cs, ⟨_, r1, e, f⟩, r2⟩
+
+/-- non-vacuity: the starter has `trap 'probe T1' INT` (handler installed); after the entry the child's disposition
+    is the default, and `SysReach` is met by an actual call list (`sigaction INT default`, `sigmask unblock INT`) -/
+example :
+    let env := (applyOps { env := initialEnv } [.trap Trap.SIGINT (.cmd 1)]).env
+    env.system.sys.disp Trap.SIGINT = .catch
+    ∧ (subshellEntry false true env).system.sys.disp Trap.SIGINT = .default
+    ∧ (runCalls env.system [.sigaction Trap.SIGINT .default, .sigmask false Trap.SIGINT]).sys.disp Trap.SIGINT
+        = (subshellEntry false true env).system.sys.disp Trap.SIGINT := by
+  decide
 
 
 end YashModel.Fork
